@@ -157,7 +157,16 @@ func mtqueriesMain(args []string) int {
 			}
 			det := func([]byte, uint32) bool { return false }
 			if strings.Contains(q.Name, "alias") {
-				tree[q.Node-1].M.Extend(det, name+"-primary", ".late", name)
+				// several aliases, not in sorted order; every one of them must resolve
+				others := []string{name + "-zz", name + "-aa", name + "-mm", name + "-bb", name + "-yy", name + "-cc"}
+				all := append([]string{others[0], others[1], name}, others[2:]...)
+				tree[q.Node-1].M.Extend(det, name+"-primary", ".late", all...)
+				for _, a := range others {
+					if got := mimetype.Lookup(a); got == nil || !got.Is(a) || got.String() != name+"-primary" {
+						rep.violate(Violation{Property: "C15", Kind: "lookup-after-extend", Text: fmt.Sprintf("Lookup(%q): one of %d aliases registered by one Extend under %s", a, len(all), tree[q.Node-1].M.String()),
+							Detail: fmt.Sprintf("got %v", got), Key: "C15|late|" + a})
+					}
+				}
 			} else {
 				tree[q.Node-1].M.Extend(det, name, ".late")
 			}
